@@ -3502,6 +3502,15 @@ class Inflate(Array):
 
     def _intbounds_impl(self):
         lower, upper = self.func._intbounds
+        if self.dofmap.ndim:
+            # entries that share an index are added
+            if isinstance(self.dofmap, Constant):
+                n = int(numpy.unique(self.dofmap.value, return_counts=True)[1].max(initial=0))
+            else:
+                n = util.product(length._intbounds[1] for length in self.dofmap.shape)
+            if n > 1:
+                lower = lower and lower * n
+                upper = upper and upper * n
         return min(lower, 0), max(upper, 0)
 
     def _argument_degree(self, argument):
